@@ -6,6 +6,7 @@ import (
 	"math"
 	"encoding/json"
 	"fmt"
+	"os"
 	"sync/atomic"
 
 	"github.com/twpayne/go-geom"
@@ -82,4 +83,13 @@ func mixedCollinear() [][6]float64 {
 		}
 	}
 	return out
+}
+
+// Home is the framework directory: /verif, or $VERIF_HOME for a scratch copy (used only by
+// tools/scratch_eval.sh to evaluate seeded changes without touching /repo).
+func Home() string {
+	if h := os.Getenv("VERIF_HOME"); h != "" {
+		return h
+	}
+	return "/verif"
 }
